@@ -24,6 +24,12 @@ def _position_writes(ctx: Ctx, f):
     g = ctx.cfg(f)
     cn = g.canon()
     out = []
+    # the working positions: the local list whose entries are written back into the module centres
+    posn = {x.value.id for st in walk_own(f.node) if isinstance(st, ast.Assign) and any(isinstance(t, ast.Attribute) and t.attr == "center" for t in st.targets)
+            for x in ast.walk(st.value) if isinstance(x, ast.Subscript) and isinstance(x.value, ast.Name)}
+    if len(posn) != 1:
+        raise AnalysisError(f"{f.qualname}: the list of working positions copied into module.center was not identified ({sorted(posn)})")
+    pos = posn.pop()
     for n in g.stmt_nodes():
         st = n.ast
         if n.kind != "stmt":
@@ -37,10 +43,10 @@ def _position_writes(ctx: Ctx, f):
             for x in ast.walk(t):
                 if isinstance(x, ast.Attribute) and isinstance(x.ctx, ast.Store) and x.attr == "center":
                     out.append((n, "module centre", cn.expr(x.value)))
-                if isinstance(x, ast.Subscript) and isinstance(x.ctx, ast.Store) and isinstance(x.value, ast.Name) and x.value.id == "pos":
+                if isinstance(x, ast.Subscript) and isinstance(x.ctx, ast.Store) and isinstance(x.value, ast.Name) and x.value.id == pos:
                     out.append((n, "position", cn.expr(x.slice)))
                 if isinstance(x, ast.Attribute) and isinstance(x.ctx, ast.Store) and x.attr in ("x", "y") and isinstance(x.value, ast.Subscript) \
-                        and isinstance(x.value.value, ast.Name) and x.value.value.id == "pos":
+                        and isinstance(x.value.value, ast.Name) and x.value.value.id == pos:
                     out.append((n, "position coordinate", cn.expr(x.value.slice)))
     return g, out
 
